@@ -59,6 +59,8 @@ OPS = {
     "view:iter":         (f"let n: u32 = p.iter().map(|b| *b as u32).sum(); {BB}(n);", False),
     "resize":            (f"p.resize(NNN + 32, 0);", True),
     "clone":             (f"let q = p.clone(); {BB}(&q);", False),
+    # Clone::clone_from onto a second live region of the same type, state and length
+    "clone_from":        (f"let mut q = CTOR; q.clone_from(&p); {BB}(&q);", False),
     "t:mlock":           (f"let q = p.mlock().unwrap(); {BB}(&q);", False),
     "t:munlock":         (f"let q = p.munlock().unwrap(); {BB}(&q);", False),
     "t:mprotect_readonly":  (f"let q = p.mprotect_readonly().unwrap(); {BB}(&q);", False),
@@ -88,6 +90,10 @@ def expectation(cont, state, op):
     if op == "resize":
         if fixed: return None
         return "accept" if p == "RW" else "reject"
+    if op == "clone_from":
+        if p == "NA": return "reject"
+        if fixed and lk: return "unspecified"
+        return "accept"
     if op == "clone":
         if p == "NA": return "reject"
         if fixed and lk: return "unspecified"     # no Clone for locked fixed arrays: not in the statement
@@ -108,7 +114,7 @@ def programs():
             for ok, (code, needs_mut) in OPS.items():
                 exp = expectation(ck, sk, ok)
                 if exp is None: continue
-                code = code.replace("NNN", str(nlen))
+                code = code.replace("NNN", str(nlen)).replace("CTOR", ctor + chain)
                 body = f"    let {'mut ' if needs_mut else ''}p = {ctor}{chain};\n    {code}\n"
                 progs.append(dict(id=f"{ck}__{sk}__{ok}".replace(":", "_"), cont=ck, state=sk, op=ok, expect=exp, body=body))
             # use after a consuming transition
@@ -283,7 +289,7 @@ def main():
               coverage=dict(states=states, transitions=len(progs), traces_validated_against_impl=len(rej) + len(uns) + len(acc) + len(runs),
                             samples=[dict(cell=p["id"], expect=p["expect"], program=p["body"]) for p in (rej[:1] + acc[:1] + rej[-1:])],
                             exhaustive=True, evaluations=len(progs), distinct_nontrivial=len(rej) + len(acc),
-                            rule="one generated program per cell of the permission table (4 containers (32-byte resizable and fixed, a page-sized fixed array, a resizable region of one page of data plus one page of spare capacity) x 5 type-states x 27 operations (incl. byte views through Serialize (JSON, bincode), Debug, PartialEq, to_vec and iter) + use-after/use-result for every consuming transition + 8 stream cells); must-reject cells: rustc must report >= 1 error of a capability class; must-accept cells: compile and run in a forked child with exit 0 and no signal; unspecified cells are recorded, and those the compiler accepts are also run (a signal is a violation, an Err-unwrap exit is not)",
+                            rule="one generated program per cell of the permission table (4 containers (32-byte resizable and fixed, a page-sized fixed array, a resizable region of one page of data plus one page of spare capacity) x 5 type-states x 28 operations (incl. byte views through Serialize (JSON, bincode), Debug, PartialEq, to_vec and iter) + use-after/use-result for every consuming transition + 8 stream cells); must-reject cells: rustc must report >= 1 error of a capability class; must-accept cells: compile and run in a forked child with exit 0 and no signal; unspecified cells are recorded, and those the compiler accepts are also run (a signal is a violation, an Err-unwrap exit is not)",
                             cells=dict(must_reject=len(rej), must_accept=len(acc), unspecified=len(uns)), programs_run=len(runs),
                             reject_error_classes=classes, unspecified_verdicts=unspecified_verdicts, known_findings_matched=list(known_hit)),
               assumptions=["rustc (nightly) is the oracle for compile-time rejection; error classes distinguish a missing capability from a stale template",
